@@ -20,7 +20,7 @@ ASSUMPTIONS = ["R6 (vlib/ref/lr.py, cfg.py): membership and trees by exhaustive 
 
 
 def plan(tier, seed):
-    n = 6000 if tier == "quick" else 120000
+    n = 6000 if tier == "quick" else 40000
     L_ = 5 if tier == "quick" else 7
     return [{"seed": seed, "chunk": i, "n": 200, "L": L_} for i in range(n // 200)]
 
